@@ -32,6 +32,21 @@ pub struct Case {
     pub steps: Vec<Step>,
     /// 0 = compactions only where the history places them; otherwise the Raft core compacts by itself
     pub threshold: u64,
+    /// every node process of this case runs with the verification hook of /repo switched on
+    /// (RNV_LOG_INDEX_AREA_LIMIT=44): a log file is full after 128 records, so long histories restart from several log
+    /// files and compactions remove closed files
+    #[serde(default)]
+    pub small_files: bool,
+}
+
+/// long histories (140..280 steps) on small log files
+pub fn case_strategy_small(concurrent: bool) -> BoxedStrategy<Case> {
+    (
+        prop::collection::vec(step_strategy(concurrent), 140..280),
+        if concurrent { prop_oneof![2 => Just(0u64), 1 => Just(50u64), 1 => Just(150u64)].boxed() } else { Just(0u64).boxed() },
+    )
+        .prop_map(|(steps, threshold)| Case { steps, threshold, small_files: true })
+        .boxed()
 }
 
 fn step_strategy(concurrent: bool) -> BoxedStrategy<Step> {
@@ -56,7 +71,7 @@ pub fn case_strategy(max_len: usize, concurrent: bool) -> BoxedStrategy<Case> {
             Just(0u64).boxed()
         },
     )
-        .prop_map(|(steps, threshold)| Case { steps, threshold })
+        .prop_map(|(steps, threshold)| Case { steps, threshold, small_files: false })
         .boxed()
 }
 
@@ -111,6 +126,7 @@ fn deterministic_variant(case: &Case) -> Case {
     Case {
         steps: case.steps.iter().map(|s| if let Step::CompactConcurrent = s { Step::Compact } else { s.clone() }).collect(),
         threshold: 0,
+        small_files: case.small_files,
     }
 }
 
@@ -153,6 +169,13 @@ fn run_case_inner(case: &Case, work: &Path, tag: &str, dir: &Path) -> CaseReport
     let reqs = to_requests(&specs);
     let kinds: BTreeSet<&'static str> = specs.iter().map(kind_name).collect();
     let mut labels: BTreeSet<String> = BTreeSet::new();
+    let envs: Vec<(String, String)> = if case.small_files { vec![("RNV_LOG_INDEX_AREA_LIMIT".to_string(), "44".to_string())] } else { vec![] };
+    if case.small_files {
+        labels.insert("small_log_files".into());
+        if specs.len() > 128 {
+            labels.insert("small_log_files_history_crosses_a_file_switch".into());
+        }
+    }
     let threshold = if case.threshold == 0 { 1_000_000 } else { case.threshold };
     if case.threshold != 0 {
         labels.insert(format!("raft_core_compaction_threshold_{}", case.threshold));
@@ -222,7 +245,7 @@ fn run_case_inner(case: &Case, work: &Path, tag: &str, dir: &Path) -> CaseReport
         }
         let ptag = format!("{}-w{}", tag, seg);
         let pw = phase(dir, work, &ptag, 1, true, threshold, ops);
-        let rw = match run_phase_child(work, &ptag, &pw, 180) {
+        let rw = match run_phase_child_env(work, &ptag, &pw, 180, &envs) {
             Ok(r) => r,
             Err(e) => {
                 return if first_phase { discard(e) } else { CaseReport::violation(labels.into_iter().collect(), true, format!("segment {}: {}", seg, e)) }
@@ -262,7 +285,7 @@ fn run_case_inner(case: &Case, work: &Path, tag: &str, dir: &Path) -> CaseReport
         // ---- restart + dump
         let rtag = format!("{}-r{}", tag, seg);
         let pr = phase(dir, work, &rtag, 1, true, threshold, vec![NodeOp::Dump]);
-        let rr = match run_phase_child(work, &rtag, &pr, 180) {
+        let rr = match run_phase_child_env(work, &rtag, &pr, 180, &envs) {
             Ok(r) => r,
             Err(e) => return CaseReport::violation(labels.into_iter().collect(), true, format!("restart after segment {}: {}", seg, e)),
         };
@@ -316,7 +339,7 @@ fn run_case_inner(case: &Case, work: &Path, tag: &str, dir: &Path) -> CaseReport
         ops.push(NodeOp::Exit { raw: false });
         let ptag = format!("{}-ref", tag);
         let pref = phase(&rdir, work, &ptag, 1, true, 1_000_000, ops);
-        let rref = run_phase_child(work, &ptag, &pref, 180);
+        let rref = run_phase_child_env(work, &ptag, &pref, 180, &envs);
         std::fs::remove_dir_all(&rdir).ok();
         if let (Ok(rref), Some(mut last)) = (rref, last_after.clone()) {
             if let (Some(NodeRes::Ok), Some(mut want)) = (rref.results.first().cloned(), get_dump(&rref)) {
@@ -403,6 +426,20 @@ pub fn main(ctx: &Ctx) -> i32 {
     }
     let w3 = work.clone();
     let fail = run_cases(ctx, &stats, strat_conc as fn() -> _, n_conc, cores(), 100, move |c| run_case(c, &w3));
+    if fail.is_some() {
+        std::fs::remove_dir_all(&work).ok();
+        return finish(ctx, &stats, fin(), fail);
+    }
+    // long histories on small log files (verification hook): restarts from several log files, compaction of closed files
+    let n_small = ctx.tier.pick(32u32, 600u32);
+    let w4 = work.clone();
+    let fail = run_cases(ctx, &stats, (|| case_strategy_small(false)) as fn() -> _, n_small, cores(), 60, move |c| run_case(c, &w4));
+    if fail.is_some() {
+        std::fs::remove_dir_all(&work).ok();
+        return finish(ctx, &stats, fin(), fail);
+    }
+    let w5 = work.clone();
+    let fail = run_cases(ctx, &stats, (|| case_strategy_small(true)) as fn() -> _, n_small / 2, cores(), 60, move |c| run_case(c, &w5));
     std::fs::remove_dir_all(&work).ok();
     finish(ctx, &stats, fin(), fail)
 }
